@@ -46,7 +46,9 @@ func (c *Ctx) spFor(ssoURL, sloURLIdp string, keyName, method string, post bool)
 		SignatureMethod: method,
 		IDPMetadata: &saml.EntityDescriptor{EntityID: idpEntity, IDPSSODescriptors: []saml.IDPSSODescriptor{{
 			SingleSignOnServices: []saml.Endpoint{{Binding: saml.HTTPRedirectBinding, Location: ssoURL}, {Binding: saml.HTTPPostBinding, Location: ssoURL}},
-			SSODescriptor:        saml.SSODescriptor{SingleLogoutServices: []saml.Endpoint{{Binding: saml.HTTPRedirectBinding, Location: sloURLIdp}, {Binding: saml.HTTPPostBinding, Location: sloURLIdp}}},
+			// (a ResponseLocation on the IdP's logout endpoints is legal; this SP addresses requests and responses to Location)
+			SSODescriptor: saml.SSODescriptor{SingleLogoutServices: []saml.Endpoint{{Binding: saml.HTTPRedirectBinding, Location: sloURLIdp, ResponseLocation: "https://idp.example.com/saml/slo-response-location"},
+				{Binding: saml.HTTPPostBinding, Location: sloURLIdp, ResponseLocation: "https://idp.example.com/saml/slo-response-location"}}},
 		}}}}
 	return s
 }
@@ -370,6 +372,22 @@ func (c *Ctx) xmlSignedMessages() {
 				s.IDPMetadata.IDPSSODescriptors[0].SingleLogoutServices = nil
 			}
 			c.count("c13-idp-slo-endpoints", map[bool]string{true: "none", false: "both"}[noSLO])
+			// the optional request settings (ForceAuthn, RequestedAuthnContext, name-ID format): whatever ends up in the emitted
+			// element is covered by its signature
+			switch (ki + 2*len(m)) % 3 {
+			case 0:
+				t := true
+				s.ForceAuthn = &t
+				c.count("c13-request-options", "ForceAuthn=true")
+			case 1:
+				f := false
+				s.ForceAuthn = &f
+				s.RequestedAuthnContext = &saml.RequestedAuthnContext{Comparison: "exact", AuthnContextClassRef: "urn:oasis:names:tc:SAML:2.0:ac:classes:PasswordProtectedTransport"}
+				s.AuthnNameIDFormat = saml.EmailAddressNameIDFormat
+				c.count("c13-request-options", "ForceAuthn=false+RequestedAuthnContext+email")
+			default:
+				c.count("c13-request-options", "defaults")
+			}
 			saml.RandReader = &detReader{c: c}
 			now := baseTime
 			saml.TimeNow = func() time.Time { return now }
